@@ -1,5 +1,5 @@
 //@ unit out_hook
-//@ serves C14
+//@ serves C14 C03
 //@ must_verify Builtins::out Builtins::convert Environment::get_out_lock_for_path Environment::set_out_lock_for_path Environment::stdout ConverterRegistry::get_converter JsonConverter::file_ext EnvConverter::file_ext FlagConverter::file_ext ExecConverter::file_ext YamlConverter::file_ext MultiYamlConverter::file_ext TomlConverter::file_ext XmlConverter::file_ext VDynConverter::file_ext lemma_artifact_has_the_bytes_of_convert lemma_failed_conversion_leaves_fs lemma_second_out_is_an_error
 // C14 — `out` writes one artifact: right name, same bytes as `convert`, all or nothing (DESIGN §5, §6).
 //
